@@ -101,8 +101,13 @@ def run_history(rep, rec, idx, rng):
     resolution = {"x": 4, "y": 4}
     origin = osyris.Vector(0.5, 0.5, 0.5, unit="cm")
     dxq, dzq = 1.0 * U("cm"), 0.5 * U("cm")
+    # orientation objects of the caller (unit length already), shared by the calls of the history
+    dirv = osyris.Vector(0.0, 0.0, 1.0, name="mydir")
+    dirb = osyris.VectorBasis(n=osyris.Vector(0.0, 0.0, 1.0, name="bn"), u=osyris.Vector(1.0, 0.0, 0.0, name="bu"), v=osyris.Vector(0.0, 1.0, 0.0, name="bv"))
+    dirs = ["z", dirv, dirb]
+    dir_snap = lambda: [snap_array(dirv), snap_array(dirb.n), snap_array(dirb.u), snap_array(dirb.v), dirv.x.name, dirb.n.x.name]
     args_snap = lambda: {"L": [snap_layer(l) for l in (L1m, L2m, L1h, L2h)], "res": dict(resolution), "origin": snap_array(origin),
-                         "dg": {k: snap_array(v) for k, v in dg.items()}, "xyw": [snap_array(a) for a in (x, y, w, w2)], "q": (str(dxq), str(dzq))}
+                         "dg": {k: snap_array(v) for k, v in dg.items()}, "xyw": [snap_array(a) for a in (x, y, w, w2)], "q": (str(dxq), str(dzq)), "dirs": dir_snap()}
     before = args_snap()
     first = {}
     for step, call in enumerate(rec["hist"], 1):
@@ -113,7 +118,7 @@ def run_history(rep, rec, idx, rng):
         try:
             with contextlib.redirect_stdout(io.StringIO()):
                 if fn == "map":
-                    p = osyris.map(L1m, L2m, dx=dxq, dz=dzq, origin=origin, resolution=resolution, direction="z", plot=False, **ckw)
+                    p = osyris.map(L1m, L2m, dx=dxq, dz=dzq, origin=origin, resolution=resolution, direction=dirs[(idx + step) % 3], plot=False, **ckw)
                 else:
                     p = osyris.histogram2d(x, y, L1h, L2h, resolution=4, xmin=0.0, xmax=4.0, ymin=0.0, ymax=4.0, plot=False, **ckw)
         except Exception as e:
@@ -125,6 +130,8 @@ def run_history(rep, rec, idx, rng):
         for nme in ("res", "q"):
             if before[nme] != after[nme]:
                 d = f"arguments: {nme} changed from {before[nme]} to {after[nme]}"
+        if d is None and not (all(same_array_snap(a, b) for a, b in zip(before["dirs"][:4], after["dirs"][:4])) and before["dirs"][4:] == after["dirs"][4:]):
+            d = "arguments: the orientation Vector / VectorBasis given as direction was modified (values or names)"
         if d is None and not all(same_layer(a, b) for a, b in zip(before["L"], after["L"])):
             d = "arguments: a Layer object (options, keyword dict or arrays) was modified by the call"
         if d is None and not (same_array_snap(before["origin"], after["origin"]) and all(same_array_snap(before["dg"][k], after["dg"][k]) for k in before["dg"])
@@ -152,7 +159,9 @@ def run_history(rep, rec, idx, rng):
                 if lay["params"].get("cmap") != src_val("extra", eff["extra"]):
                     d = f"precedence: layer {li + 1} keyword option cmap is {lay['params'].get('cmap')!r}, expected {src_val('extra', eff['extra'])!r} ({eff['extra']})"
                     break
-                if fn == "map":
+                if fn == "map" and dirs[(idx + step) % 3] is dirv:
+                    pass          # a bare normal gives a rotated in-plane basis: the operation is observed in the axis-aligned calls only
+                elif fn == "map":
                     want_op = src_val("operation", eff["operation"]) or "sum"
                     got_op = effective_operation_map(lay["data"], dg, "density" if li == 0 else "pressure", 0.5, 2)
                     if got_op != want_op:
@@ -168,7 +177,7 @@ def run_history(rep, rec, idx, rng):
                     if got_op != want_op:
                         d = f"precedence: layer {li + 1} operation looks like {got_op}, expected {want_op} ({eff['operation']})"
                         break
-        key = (fn, tuple(sorted(cs)))
+        key = (fn, tuple(sorted(cs)), (idx + step) % 3 if fn == "map" else 0)
         datas = [np.ma.filled(l["data"], -1.0).copy() for l in p.layers]
         if d is None and key in first:
             if not all(np.array_equal(a, b) for a, b in zip(first[key], datas)):
